@@ -69,6 +69,64 @@ Example C19_skip_nonvacuous :
      = Some [ModifyTable [116]%N [AddColumn [99]%N]].
 Proof. split; [repeat constructor | split; vm_compute; reflexivity]. Qed.
 
+(** ** C19_skip_options_reusable (round 3).  The skip list reaches the differ as functional
+    option VALUES ([schema.DiffSkipChanges(...)], [schema.DiffNormalized()], the list built by
+    cmdapi [Diff.Options()]) that callers keep and pass to many diffs.  Model: Excl/Options.v
+    ([NewDiffOptions] folds the options over the zero [DiffOptions]; [DiffSkipChanges K] appends K).
+
+    For every driver as in C19_skip, every sequence of diffs [calls] -- each call is a list of
+    option values, the same values may occur in many calls, several times in one call, in any
+    order, [DiffNormalized] anywhere -- and every pair of schemas:
+    (1) the i-th change set is the unfiltered change set minus exactly the kinds the options OF
+        THAT CALL name (nothing of the other calls of the sequence enters);
+    (2) no kind named by a call's options occurs in its change set at either level;
+    (3) two option lists naming the same SET of kinds (whatever the order, the duplicates, the
+        split over option values) give the same change set;
+    (4) [DiffNormalized] sets the mode and leaves the skip list alone, wherever it stands.
+    In Gallina (1) holds because a function cannot be rewritten by applying it; that the Go
+    closures are such functions is the observation of the tie stage "reuse" (model = Go on every
+    call of every sequence; oracle: equal to what freshly made options give). *)
+From Atlas Require Import Excl.Options Excl.OptionsProofs.
+
+Theorem C19_skip_options_reusable :
+  forall D : DiffDriver, attr_changes_only D ->
+  forall calls : list (list optd), Forall skippable_opts calls ->
+  forall from to : schema,
+    diff_sequence D calls from to
+      = map (fun ds => option_map (remove_kinds (kinds_of ds)) (SchemaDiff D no_skip from to)) calls
+    /\ (forall ds r k, In ds calls -> SchemaDiffOpts D (map option_of ds) from to = Some r ->
+                       In k (kinds_of ds) -> ~ occurs k r)
+    /\ (forall ds ds', skippable_opts ds -> skippable_opts ds' ->
+                       (forall k, In k (kinds_of ds) <-> In k (kinds_of ds')) ->
+                       SchemaDiffOpts D (map option_of ds) from to = SchemaDiffOpts D (map option_of ds') from to)
+    /\ (forall ds, SkipChanges (NewDiffOptions (map option_of ds)) = kinds_of ds
+                   /\ Mode (NewDiffOptions (map option_of ds))
+                      = if existsb (fun d => match d with ONormalized => true | _ => false end) ds
+                        then DiffModeNormalized else DiffModeUnset).
+Proof.
+  intros D HD calls Hc from to. split; [|split; [|split]].
+  - exact (sequence_exact D HD calls from to Hc).
+  - intros ds r k Hin Hr Hk. rewrite Forall_forall in Hc.
+    exact (options_absent D HD ds from to r k (Hc ds Hin) Hr Hk).
+  - intros ds ds' Hs Hs' H. exact (options_set_only D HD ds ds' from to Hs Hs' H).
+  - intros ds. split; [exact (NewDiffOptions_skip ds)|].
+    unfold NewDiffOptions. rewrite fold_options_mode. reflexivity.
+Qed.
+Print Assumptions C19_skip_options_reusable.
+
+(** non-vacuity: A = [DropColumn; DropColumn] (a duplicate inside one option), B = [DropIndex; DropColumn]
+    (overlaps A); the calls (N A B), (N A), (B N A A), (N) on the pair of C19_skip_nonvacuous *)
+Example C19_skip_options_nonvacuous :
+  let A := OSkip [KDropColumn; KDropColumn] in
+  let B := OSkip [KDropIndex; KDropColumn] in
+  Forall skippable_opts [[ONormalized; A; B]; [ONormalized; A]; [B; ONormalized; A; A]; [ONormalized]]
+  /\ diff_sequence sqlite_driver [[ONormalized; A; B]; [ONormalized; A]; [B; ONormalized; A; A]; [ONormalized]] ex_from ex_to
+     = [Some [ModifyTable [116]%N [AddColumn [99]%N]];
+        Some [ModifyTable [116]%N [AddColumn [99]%N; DropIndex [105]%N]];
+        Some [ModifyTable [116]%N [AddColumn [99]%N]];
+        Some [ModifyTable [116]%N [DropColumn [98]%N; AddColumn [99]%N; DropIndex [105]%N]]].
+Proof. split; [repeat constructor | vm_compute; reflexivity]. Qed.
+
 (** ** C19_exclude_exact.  "A resource matching an --exclude pattern is absent from every
     inspection result ..., while every resource that matches no pattern is still present."
 
